@@ -227,6 +227,11 @@ class _Res:
     _Res.made.append(name)
 
 
+class _ResD(_Res):
+  def __init__(self, name='d'):
+    super().__init__(name)
+
+
 def _measure(res):
   return 7                 # uses its argument and drops it
 
@@ -329,7 +334,33 @@ def partial_nodes_scenario():
         bad(f'Partial with {name}: built to {o!r}, not a functools.partial of the callable', name)
       elif getattr(o(*([] if name != 'no arguments' else ['n'])), 'name', None) != 'n':
         bad(f'Partial with {name}: calling the built partial does not call the configured callable', name)
-  return n, n, viols, [dict(scenario='Partial nodes with and without bound arguments')]
+  # ArgFactory nodes: one wrapper per instance and per build; consumed by a Partial, each distinct
+  # node is invoked once per call and distinct nodes give distinct objects
+  for name, mk in (('ArgFactory without arguments', lambda: fdl.ArgFactory(_ResD)),
+                   ('ArgFactory with arguments', lambda: fdl.ArgFactory(_ResD, 'n'))):
+    n += 1
+    f1, f2 = mk(), mk()
+    a, (b, c) = fdl.build([f1, [f1, f2]])
+    a2, _y = fdl.build([f1, [f1, f2]])
+    if a is not b:
+      bad(f'{name}: references to one instance were built to different objects', name)
+    if a is c:
+      bad(f'{name}: two distinct (equal) ArgFactory instances were built to the very same object', name)
+    if a is a2:
+      bad(f'{name}: two builds returned the same object for a node', name)
+    part = fdl.build(fdl.Partial(_combine, [mk(), mk()], other=(mk(),)))
+    for call in (1, 2):
+      _Res.made.clear()
+      (lst,), named = part()
+      made = len(_Res.made)
+      if made != 3:
+        bad(f'{name}: a call of the built partial invoked the factories {made} times, there are 3 distinct '
+            f'ArgFactory nodes (two equal ones in a list, one in a tuple)', name)
+        break
+      if lst[0] is lst[1] or lst[0] is named['other'][0]:
+        bad(f'{name}: distinct (equal) factory nodes must give distinct objects in a call', name)
+        break
+  return n, n, viols, [dict(scenario='Partial / ArgFactory nodes with and without bound arguments')]
 
 
 def derived_namedtuple_scenario():
